@@ -13,7 +13,7 @@ from sim.simstream import SimStream
 
 ID = "C09"
 LEVEL = "exploration"
-TIERS = {"quick": {"runs": 12000, "budget_s": 70, "chunk": 50, "min_runs": 300},
+TIERS = {"quick": {"runs": 40000, "budget_s": 75, "chunk": 50, "min_runs": 300},
          "thorough": {"runs": 1500000, "budget_s": 1200, "chunk": 200, "min_runs": 5000}}
 RULE = ("case = seeded (definition set, config, stream image = junk prefix | value1 | junk gap | value2 | junk suffix, history of "
         "2-8 operations on ONE stream object: seek, raw read, parse (any call form), parse that fails half-way (truncated tail or "
